@@ -1,5 +1,5 @@
 // Driver (harness code): enumerates the bounded domain on the JVM and prints one JSON line per case.
-//   args: tables <maxCell> [aLo aHi] | hwe <maxCount> | cases   (cases: lines "t a b c d m..." / "x a b c d m..." (no Fisher) / "g r h v" on stdin)
+//   args: tables <maxCell> [aLo aHi] | totalsabove <maxTotal> <cellBound> | alts <maxTotal> | hwe <maxCount> | cases   (cases: lines "t a b c d m..." / "x a b c d m..." (no Fisher) / "g r h v" on stdin)
 package vfdriver
 
 import is.hail.stats._
@@ -51,6 +51,22 @@ object C37Main {
           val mn = math.min(math.min(a, b), math.min(c, d))
           table(out, a, b, c, d, Seq(0, mn, mn + 1).distinct)
         }
+      case "totalsabove" =>
+        // every table with a+b+c+d <= n that has a cell > m (the part of the total-bounded domain outside the cell-bounded grid)
+        val n = args(1).toInt
+        val m = args(2).toInt
+        for (a <- 0 to n; b <- 0 to n - a; c <- 0 to n - a - b; d <- 0 to n - a - b - c)
+          if (math.max(math.max(a, b), math.max(c, d)) > m) {
+            val mn = math.min(math.min(a, b), math.min(c, d))
+            table(out, a, b, c, d, Seq(0, mn, mn + 1).distinct)
+          }
+      case "alts" =>
+        // one-sided alternatives of the engine's general fisherExactTest on every table with a+b+c+d <= n
+        val n = args(1).toInt
+        for (a <- 0 to n; b <- 0 to n - a; c <- 0 to n - a - b; d <- 0 to n - a - b - c)
+          out.println("{\"t\":[" + a + "," + b + "," + c + "," + d + "],\"two\":" + arr(fisherExactTest(a, b, c, d, 1.0, 0.95, "two.sided")) +
+            ",\"less\":" + arr(fisherExactTest(a, b, c, d, 1.0, 0.95, "less")) +
+            ",\"greater\":" + arr(fisherExactTest(a, b, c, d, 1.0, 0.95, "greater")) + "}")
       case "hwe" =>
         val n = args(1).toInt
         for (r <- 0 to n; h <- 0 to n; v <- 0 to n) hwe(out, r, h, v)
